@@ -323,7 +323,8 @@ def rule_frame(c: Ctx) -> RuleResult:
             if _is_ctor_scan(c, f):
                 r.add(key, c.where(f, m), f.short, U(m), "exempt", "constructor scan: a physical line is scanned from its start, the frames coincide")
                 continue
-            ok = _mentions_bscount(m.left)
+            from ..interproc import expand
+            ok = _mentions_bscount(m.left) or _mentions_bscount(expand(c, f, m.left, m))
             r.add(key, c.where(f, m), f.short, U(m), "discharged" if ok else "violation",
                   "tab stop computed on the absolute column (bsCount term present)" if ok else
                   "tab stop computed on a column relative to the logical line start: inside a container whose prefix is not a multiple "
